@@ -26,7 +26,7 @@ import textwrap
 from pathlib import Path
 
 ID = "C20"
-LEVEL_TEXT = ("25 theorems, all closed under the global context, for every repository state, reference, package content, sequence of "
+LEVEL_TEXT = ("32 theorems, all closed under the global context, for every repository state, reference, package content, sequence of "
               "loader stages / extension hooks and every placement of faults: each git call may fail or raise, before or after taking "
               "effect, or be TORN (`worktree add` interrupted after `git branch`, `worktree remove` after deleting the directory); the "
               "removal of the TemporaryDirectory may raise at once, in the middle or on return. load_git restores the repository EXACTLY "
@@ -39,7 +39,12 @@ LEVEL_TEXT = ("25 theorems, all closed under the global context, for every repos
               "every file system (the collection stores lines, never a promise to read them). Model tied to the code by fault-injected "
               "differential runs on generated repositories (in process, and end to end through `python -m griffe check` with a git shim "
               "that fails, sends SIGINT or tears calls), to git by an oracle correspondence on git step sequences, and the returned "
-              "objects to `git show` with the file system below TMPDIR audited.")
+              "objects to `git show` with the file system below TMPDIR audited. The `package absent at that reference` path with inspection "
+              "allowed is in the model with the import system of the calling process as state (sys.path, sys.modules, which directory holds "
+              "which module, byte code, __pycache__ written): for every process state and file system load_git finds / imports a package "
+              "only in a search path inside the checkout, writes byte code only there and restores sys.path; for every history of imports "
+              "under any law of importer.sys_path that puts nothing but the given paths on sys.path -- and the law is REGENERATED from "
+              "importer.py by a translator (it is `replace`); the prepend law is refuted.")
 LEVEL_NOTE = ("Modelled, not verified: git itself (worktree add on free / occupied / registered paths, remove, prune, branch -D: tied to "
               "real git 2.39 by (O); the ORDER of git's internal effects behind the torn faults is read off builtin/worktree.c and tied "
               "only for `worktree add` -- a refusal because of the path leaves the branch), the file system, TemporaryDirectory, the "
@@ -50,9 +55,20 @@ LEVEL_NOTE = ("Modelled, not verified: git itself (worktree add on free / occupi
               "guard=true and checked against the repaired clone with VERIF_C20_GUARD=1. Repaired and now regression cases: --force, "
               "F3 (global `worktree prune`), F4 (reference normalising to the empty string). Hypothesis `fresh`: mkdtemp's name carries "
               "no stale worktree registration (the collision case is in the model and the correspondence, outside the theorems). "
-              "Non-ASCII references are outside the normalize model (checked directly against the spec only).")
+              "Non-ASCII references are outside the normalize model (checked directly against the spec only). Import model: top-level "
+              "modules only, Python's import machinery reduced to sys.modules-then-sys.path lookup (trusted; tied on the generated "
+              "absent / broken / present x cached / not cached cases); hypothesis of the import theorem: the package is not already in "
+              "sys.modules from elsewhere -- it is needed (C20_cached_package_escapes) and its failure is the known finding C20-F5 "
+              "(load_git returns the working tree's package for a reference where it is absent; nothing written).")
 MODEL = ("Model.C20_git", "run_C20")
-COQ_TARGETS = ["Proofs/C20_git.vo"]
+COQ_TARGETS = ["Proofs/C20_git.vo", "Proofs/C20_import.vo"]
+
+
+def translate(ctx):
+    """(T) regenerates coq/Gen/C20_syspath.v (the law of importer.sys_path) from the tree under test; fail closed."""
+    from harness.translate import c20_syspath
+    return c20_syspath.translate(ctx)
+
 RULE = ("seeded repositories (5-8 commits; package present / absent / top-level syntax error / broken submodule; lightweight and annotated "
         "tags; branches with slashes; HEAD on main, on a slash branch or detached; dirty main worktree with untracked, modified, staged "
         "files and a stash; foreign worktrees healthy / locked-stale / stale / in a directory NAMED like the normalised branch they hold; a "
@@ -1175,6 +1191,14 @@ def run_load_case(env, repo: Repo, case):
             git(repo.path, "worktree", "lock", str(stale))
         shutil.rmtree(env.tmp / tmpname)
         tempfile._name_sequence = iter([fixed] + [f"c20other{i}" for i in range(50)])
+    if case.get("preimport"):
+        # the calling process has already imported the package from its working tree (a script of the project, a test run)
+        sys.path.insert(0, str(repo.path if repo.layout == "." else repo.path / repo.layout))
+        try:
+            importlib.invalidate_caches()
+            importlib.import_module(PKG)
+        finally:
+            del sys.path[0]
     before = observe(repo)
     before_abs = abstract(repo, before)
     os.chdir(repo.path)
@@ -1182,6 +1206,7 @@ def run_load_case(env, repo: Repo, case):
     ext = make_extension(ctrl)
     obj = None
     inspect_mode = bool(case.get("inspect"))
+    syspath_before = None
     with injected(ctrl):
         try:
             if inspect_mode or case.get("syspath"):
@@ -1191,6 +1216,7 @@ def run_load_case(env, repo: Repo, case):
                 # `python -m griffe` started there ('' / cwd entry), an editable or PYTHONPATH=. set-up
                 sys.path[:0] = ["", str(repo.path if repo.layout == "." else repo.path / repo.layout)]
                 importlib.invalidate_caches()
+                syspath_before = list(sys.path)
             with watchdog(60):
                 obj = griffe.load_git(package, ref=ref, repo=repo_arg, search_paths=[repo.layout],
                                       extensions=griffe.load_extensions(ext), resolve_aliases=True, force_inspection=inspect_mode)
@@ -1199,6 +1225,7 @@ def run_load_case(env, repo: Repo, case):
             outcome = ["raised", exc_name(e)]
         finally:
             tempfile._name_sequence = saved_names
+            syspath_after = list(sys.path)
             if case.get("syspath"):
                 del sys.path[:2]
             if inspect_mode or case.get("syspath"):
@@ -1214,7 +1241,16 @@ def run_load_case(env, repo: Repo, case):
     after_abs = abstract(repo, after)
     rec = {"case": case, "before": before, "after": after, "before_abs": before_abs, "after_abs": after_abs, "outcome": outcome,
            "pid": pid, "ctrl": ctrl, "obj_problems": [], "n_points": len(ctrl.points.get(1, [])), "lines_queries": [], "audit": None}
-    if obj is not None and package == PKG and outcome[1] < len(repo.commits):
+    if case.get("preimport") and obj is not None and outcome[0] == "returned":
+        outcome = rec["outcome"] = ["returned", repo.loadable(ref)]     # the git model's "version" is the commit asked for
+    rec["syspath_restored"] = syspath_before is None or syspath_before == syspath_after
+    rec["origin"] = None
+    if obj is not None:
+        fp = str(obj.filepath[0] if isinstance(obj.filepath, list) else obj.filepath)
+        rec["origin"] = "checkout" if fp.startswith(str(env.tmp)) else "working-tree" if fp.startswith(str(repo.path)) else fp
+    elif outcome == ["raised", "LoadingError"]:
+        rec["origin"] = "checkout"
+    if obj is not None and package == PKG and outcome[1] < len(repo.commits) and not (case.get("preimport") and rec["origin"] != "checkout"):
         try:
             if not inspect_mode:
                 rec["obj_problems"] = check_returned_object(repo, obj, outcome[1], env)
@@ -1229,7 +1265,12 @@ def model_input_load(repo, rec, isrepo=True):
     case = rec["case"]
     plan = {int(k): v for k, v in case["events"].items()}
     n = case.get("n_points", 0)
-    return ["load_git", GUARD, True, isrepo, rec["before_abs"], case["faults"], rec["pid"], case["ref"], repo.tree(case["package"]),
+    tree = repo.tree(case["package"])
+    if case.get("preimport") and rec.get("origin") == "working-tree":
+        # what load() finds is decided by the import model (compared in syspath_stream): with the package cached in
+        # sys.modules the loader's view of that commit is "a package"
+        tree = [[i, "package" if i == repo.loadable(case["ref"]) else k] for i, k in tree]
+    return ["load_git", GUARD, True, isrepo, rec["before_abs"], case["faults"], rec["pid"], case["ref"], tree,
             events_for_model(plan, n)]
 
 
@@ -1357,6 +1398,17 @@ def run_load_batch(ctx, env, repo, cases, label):
     return recs
 
 
+def import_model_input(repo, rec):
+    """The import system of the calling process for one `importable-working-tree` case, as the import model sees it:
+    directory 0 = the search path inside the checkout, 1 = the package's parent directory in the user's working tree (first on
+    sys.path), 9 = the rest of sys.path; byte code on."""
+    c = rec["case"]
+    kind = repo.commits[repo.loadable(c["ref"])]["kind"]
+    provides = [[1, PKG]] + ([[0, PKG]] if kind != "absent" else [])
+    proc = [[1, 9], [[PKG, 1]] if c.get("preimport") else [], provides, True]
+    return ["import-load", proc, PKG, 0, [0], True]
+
+
 def syspath_stream(ctx, env, repo):
     if repo.work["kind"] != "package":
         ctx.observe("syspath.stream", "skipped: no package in the working tree")
@@ -1366,20 +1418,65 @@ def syspath_stream(ctx, env, repo):
         if c["kind"] != "package":
             cases.append(load_case(c["sha"], syspath=True))
             cases.append(load_case(c["sha"][:8], syspath=True, faults=faults(remove=["fail-after"]), repo_arg="."))
+            cases.append(load_case(c["sha"], syspath=True, preimport=True))        # ... and has already imported it
             if c["kind"] == "absent":
                 cli = cli or c["sha"]
     k = repo.head_idx
     cases.append(load_case(repo.commits[k]["sha"], syspath=True))                 # present: nothing but the checkout may be read
     cases.append(load_case(repo.commits[k]["sha"], syspath=True, inspect=True, expect=k))
-    for rec in run_load_batch(ctx, env, repo, cases, "importable-working-tree"):
+    cases.append(load_case(repo.commits[k]["sha"], syspath=True, preimport=True))
+    recs = run_load_batch(ctx, env, repo, cases, "importable-working-tree")
+    try:
+        mouts = ctx.model([import_model_input(repo, r) for r in recs])
+    except Exception as e:
+        if type(e).__name__ != "ModelUnavailable":
+            raise
+        mouts = [None] * len(recs)
+    for rec, mo in zip(recs, mouts):
+        cj = dict(rec["case"], repo=repo.spec(), kind="load_git")
         kind = repo.commits[repo.loadable(rec["case"]["ref"])]["kind"]
-        ctx.observe("syspath.stream", f"{kind}:{rec['outcome'][1] if rec['outcome'][0] == 'raised' else 'returned'}")
-        if rec["outcome"][0] == "returned" and kind != "package":
-            ctx.property_failure(dict(rec["case"], repo=repo.spec(), kind="load_git"),
-                                 {"what": "load_git returned a package although it is absent / broken at that reference", "outcome": rec["outcome"]})
+        wrote = "__pycache__" in rec["after"]["files"] and "__pycache__" not in rec["before"]["files"]
+        ctx.observe("syspath.stream", f"{kind}{'+cached' if rec['case'].get('preimport') else ''}:"
+                    f"{rec['outcome'][1] if rec['outcome'][0] == 'raised' else 'returned from ' + str(rec['origin'])}")
+        if not rec["syspath_restored"]:
+            ctx.property_failure(cj, {"what": "sys.path of the calling process is not what it was after load_git"})
+        escaped = rec["outcome"][0] == "returned" and (kind != "package" or rec["origin"] != "checkout")
+        if mo is not None:
+            origin = {"found-on-disk": "checkout", "imported": None, "not-found": None}[mo[0][0]]
+            if mo[0][0] == "imported":
+                origin = "checkout" if mo[0][1] == 0 else "working-tree"
+            impl = [rec["origin"], wrote]
+            model = [origin, any(d == 1 for d, _m in mo[1])]
+            if impl != model:
+                ctx.tie_failure("correspondence", "load_top (import model: where the package comes from, byte code written in the working tree) vs griffe.load_git",
+                                {"model": model, "impl": impl, "outcome": rec["outcome"]}, cj)
+            if mo[2] != [1, 9]:
+                ctx.tie_failure("correspondence", "sys.path after load_top (import model)", mo[2], cj)
+            if escaped and rec["case"].get("preimport") and model == impl and not wrote:
+                # known finding F5: the faithful model reproduces the escape (package cached in sys.modules)
+                ctx.property_failure(cj, {"what": "load_git returned the working tree's package for a reference where it is absent / broken",
+                                          "origin": rec["origin"]}, finding="C20-F5")
+                continue
+        if escaped:
+            ctx.property_failure(cj, {"what": "load_git returned a package that does not come from the checkout of that reference",
+                                      "origin": rec["origin"], "commit kind": kind, "outcome": rec["outcome"]})
     if cli:
         run_cli(ctx, env, repo, cli, None, importable=True)
         repo.restore()      # whatever that run may have written into the working tree
+
+
+def witness_f5(env, repo):
+    """F5: the package is in sys.modules (imported from the working tree) and absent at the reference: load_git returns it."""
+    if repo.work["kind"] != "package":
+        return None
+    k = next((i for i, c in enumerate(repo.commits) if c["kind"] == "absent"), None)
+    if k is None:
+        return None
+    rec = run_load_case(env, repo, load_case(repo.commits[k]["sha"], syspath=True, preimport=True))
+    changed = diff_obs(rec["before"], rec["after"])
+    if changed:
+        repo.restore()
+    return rec["outcome"][0] == "returned" and rec["origin"] == "working-tree" and not changed
 
 
 def load_case(ref, package=PKG, faults=None, events=None, n_points=0, **kw):
@@ -2579,6 +2676,9 @@ def explore(ctx):
                                      {"what": "a failing post-checkout hook leaves the branch griffe-<ref> and a worktree entry behind"})
         else:
             ctx.witness("C20-F2", witness_f2(env, rep0))
+        w5 = next((w for w in (witness_f5(env, r) for r in repos) if w is not None), None)
+        if w5 is not None:
+            ctx.witness("C20-F5", w5)
         # the witnesses of the repaired findings F3 and F4 are regression cases now: they must not reproduce
         ctx.case({"kind": "regression", "finding": "F3"}, True)
         if witness_f3(env, rep0):
